@@ -31,6 +31,14 @@ def clsOf (name : Bytes) : Option (Bytes × Nat) := lookupScheme Gen.uriSchemes 
 def opsUri (op : String) (args : List String) : Option String :=
   match op, hexArgs args with
   | "uri.abspath", some [p] => some (hexOrDash (abspath p))
+  | "rfc.resolve", some [fl, bs, ba, bp, bq, bf, rs, ra, rp, rq, rf] =>
+    -- Spec/Rfc3986.lean itself (no httoop code on either side): `fl` holds one octet per optional component, 0x31 = defined
+    let o (i : Nat) (v : Bytes) : Option Bytes := if fl.getD i 0 == 0x31 then some v else none
+    let t := Rfc3986.resolveWith (fun p => Rfc3986.removeDotSegments (collapse p))
+      { scheme := o 0 bs, authority := o 1 ba, path := bp, query := o 2 bq, fragment := o 3 bf }
+      { scheme := o 4 rs, authority := o 5 ra, path := rp, query := o 6 rq, fragment := o 7 rf }
+    let r (v : Option Bytes) : String := match v with | some x => "some:" ++ hexOrDash x | none => "none"
+    some s!"{r t.scheme} {r t.authority} {hexOrDash t.path} {r t.query} {r t.fragment}"
   | "uri.rds", some [p] => some (hexOrDash (Rfc3986.removeDotSegments (collapse p)))
   | "uri.parse", some [cls, t] => some (renderRSkip renderUri (parse env (clsOf cls) t))
   | "uri.norm", some [t] => some (renderRSkip renderUri ((parse env none t).map (normalize env)))
